@@ -831,8 +831,7 @@ impl<R: Read> RdbReader<R> {
             .as_millis() as u64;
         
         if expiry_ms > now_ms {
-            let ttl = Some(Duration::from_millis(expiry_ms - now_ms));
-            self.read_key_value_with_type(storage, db, value_type, ttl)?;
+            self.read_key_value_with_type(storage, db, value_type, Some(expiry_ms))?;
         } else {
             // The deadline passed while the data was on disk: the entry still has to be
             // consumed from the file, but the key must not come back (least of all
@@ -844,8 +843,20 @@ impl<R: Read> RdbReader<R> {
         Ok(())
     }
     
+    /// Time left until an absolute expiry time (Unix ms), measured now: the deadline must not
+    /// drift by however long the value took to read and insert
+    fn remaining(expiry_ms: Option<u64>) -> Option<Duration> {
+        expiry_ms.map(|expiry_ms| {
+            let now_ms = SystemTime::now()
+                .duration_since(UNIX_EPOCH)
+                .unwrap()
+                .as_millis() as u64;
+            Duration::from_millis(expiry_ms.saturating_sub(now_ms).max(1))
+        })
+    }
+    
     /// Read key-value with known type; returns the key that was loaded
-    fn read_key_value_with_type(&mut self, storage: &Arc<StorageEngine>, db: usize, value_type: u8, ttl: Option<Duration>) -> Result<Vec<u8>> {
+    fn read_key_value_with_type(&mut self, storage: &Arc<StorageEngine>, db: usize, value_type: u8, expiry_ms: Option<u64>) -> Result<Vec<u8>> {
         let loaded_key;
         match value_type {
             op if op == RdbOpcode::String as u8 => {
@@ -853,7 +864,7 @@ impl<R: Read> RdbReader<R> {
                 loaded_key = key.clone();
                 let value = self.read_string()?;
                 
-                if let Some(ttl) = ttl {
+                if let Some(ttl) = Self::remaining(expiry_ms) {
                     storage.set_string_ex(db, key, value, ttl)?;
                 } else {
                     storage.set_string(db, key, value)?;
@@ -870,7 +881,7 @@ impl<R: Read> RdbReader<R> {
                     storage.zadd(db, key.clone(), member, score)?;
                 }
                 
-                if let Some(ttl) = ttl {
+                if let Some(ttl) = Self::remaining(expiry_ms) {
                     storage.expire(db, &key, ttl)?;
                 }
             }
@@ -927,7 +938,7 @@ impl<R: Read> RdbReader<R> {
                             }
                         }
                         
-                        if let Some(ttl) = ttl {
+                        if let Some(ttl) = Self::remaining(expiry_ms) {
                             storage.expire(db, &key, ttl)?;
                         }
                         return Ok(loaded_key);
@@ -945,7 +956,7 @@ impl<R: Read> RdbReader<R> {
                     // Empty list - do nothing
                 }
                 
-                if let Some(ttl) = ttl {
+                if let Some(ttl) = Self::remaining(expiry_ms) {
                     storage.expire(db, &key, ttl)?;
                 }
             }
@@ -961,7 +972,7 @@ impl<R: Read> RdbReader<R> {
                 }
                 storage.sadd(db, key.clone(), members)?;
                 
-                if let Some(ttl) = ttl {
+                if let Some(ttl) = Self::remaining(expiry_ms) {
                     storage.expire(db, &key, ttl)?;
                 }
             }
@@ -979,7 +990,7 @@ impl<R: Read> RdbReader<R> {
                 }
                 storage.hset(db, key.clone(), field_values)?;
                 
-                if let Some(ttl) = ttl {
+                if let Some(ttl) = Self::remaining(expiry_ms) {
                     storage.expire(db, &key, ttl)?;
                 }
             }
